@@ -395,6 +395,20 @@ def stage_targeted(ctx: Ctx, progs):
                 ind = len(lines[ln_]) - len(lines[ln_].lstrip())
                 for clause in ('else', 'elif b', 'finally', 'except E', 'case _'):
                     judge_edit(ctx, 'header-brings-clause', src, 'exec', tuple(f.loc), f'{f.src}: pass\n{" " * ind}{clause}')
+    # (4d) the same on handler / case ROOTS (reparsed through their own wrappers): every header token replaced by itself, and by text that ends the header and brings
+    #      statements of its own in front of the old body
+    for mode, src in [('ExceptHandler', 'except Exc:\n    x = 1'), ('ExceptHandler', 'except  (A, B)  as  e :\n    x = 1\n    y\n'), ('ExceptHandler', 'except* Exc:\n    x = 1'), ('match_case', 'case abc:\n    x = 1'),
+                      ('match_case', 'case [a, b] if c :\n    x = 1\n    y\n'), ('ExceptHandler', 'except:\n    x = 1'), ('match_case', 'case {"k": v} | None:\n    x = 1')]:
+        l = src.split('\n')[0]
+        colon = l.rindex(':')
+        toks_ = [(m_.start(), m_.end()) for m_ in re.finditer(r'\w+|[^\w\s]', l[:colon])]
+        for a_, b_ in toks_[1:]:
+            judge_edit(ctx, 'root-header-edit', src, mode, (0, a_, 0, b_), l[a_:b_])
+            judge_edit(ctx, 'root-header-brings-body', src, mode, (0, a_, 0, b_), l[a_:b_] + ':\n    foo()\n#')
+            judge_edit(ctx, 'root-header-brings-body', src, mode, (0, a_, 0, colon), l[a_:b_] + ':\n    foo()\n    bar()\n#')
+        judge_edit(ctx, 'root-header-edit', src, mode, (0, colon, 0, colon), ' ')
+        judge_edit(ctx, 'root-header-brings-body', src, mode, (0, colon, 0, colon + 1), ':\n    foo()\n    if q:')
+        judge_edit(ctx, 'root-header-brings-body', src, mode, (0, colon, 0, colon + 1), ': foo()\n    if q:')
     # (5) line continuations and semicolons
     for src in CONT_PROGS:
         root = fst.FST(src, 'exec')
